@@ -193,6 +193,7 @@ Outcome World::apply(const Op& op) {
       case OP_MOVE_MOCK: mv[op.k1 - 2].reset(new MV(std::move(*mv[op.obj - 2]))); break;
       case OP_DESTROY_SEQ: sort_reports = armed != 0; seq[op.s1].reset(); break;
       case OP_MOVE_SEQ: seq[op.s1].reset(new trompeloeil::sequence(std::move(*seq[op.s1]))); break;
+      case OP_ASSIGN_SEQ: sort_reports = armed != 0; *seq[op.s1] = trompeloeil::sequence{}; break;
       case OP_NEW_WATCHED: w[op.obj].reset(new WObj); break;
       case OP_DELETE_WATCHED: sort_reports = true; w[op.obj].reset(); break;
       case OP_COPY_WATCHED:  // k2 = 0: copy from a const lvalue (the copy constructor proper); k2 = 1: from a non-const lvalue (picks the forwarding constructor)
